@@ -78,7 +78,7 @@ def value_mutant(rng, g):
         i, j = rng.choice(idx)
         h, b, a, aid = syn[i]
         b = list(b)
-        b[j] = (0, rng.choice(["Undefined9", "Zz", "N0x"]))
+        b[j] = (0, rng.choice(["Undefined9", "Zz", "N0x", "Äb", "Ωmega", "Éé9"]))
         syn[i] = (h, b, a, aid)
     elif k == "rename_regdef":
         cands = [i for i, (_, _, p) in enumerate(lex) if refs_of(p, [])]
@@ -213,10 +213,11 @@ def run(tier):
         # semantic half: the Lean model of the semantic checks predicts the verdict of every value-level mutant
         mlines = []
         for k, (_, _, g2, _) in enumerate(vcases):
-            mlines += ["G %d %s" % (k, gram.encode(g2)), "semcheck %d" % k]
-        mout = C.run_model(mlines, timeout=3000)[1::2] if mlines else []
+            mlines += ["G %d %s" % (k, gram.encode(g2)), "semcheck %d" % k, "semspec %d" % k]
+        mall = C.run_model(mlines, timeout=3000) if mlines else []
+        mout, sout = mall[1::3], mall[2::3]
         vstats = {}
-        for (kind, i, g2, vtxt), mv in zip(vcases, mout):
+        for (kind, i, g2, vtxt), mv, sv in zip(vcases, mout, sout):
             it = b.items[i]
             outp = (it["out"] + it["err"])
             cat = category(outp)
@@ -226,6 +227,15 @@ def run(tier):
             vstats[kind]["model_rejects"] += mcat != "ok"
             vstats[kind]["gocc_rejects"] += it["rc"] != 0
             stats["mutants"] += 1
+            vstats[kind]["spec_ill_formed"] = vstats[kind].get("spec_ill_formed", 0) + (sv == "ill")
+            if sv == "ill" and it["rc"] == 0 and not it["hang"]:
+                ck.violation("a grammar that violates the property's clauses (%s; Spec/SemWF.lean) was accepted with exit status 0" % kind,
+                             {"bnf": vtxt, "kind": kind, "model": mv, "spec": sv, "stdout": it["out"], "stderr": it["err"][-400:]})
+                continue
+            if (sv == "ill") != (mcat != "ok"):
+                ck.violation("the model of the semantic checks (semCheck: %s) and the property's clauses (%s) disagree on a %s mutant" % (mv, sv, kind),
+                             {"bnf": vtxt, "kind": kind, "model": mv, "spec": sv, "gocc_rc": it["rc"],
+                              "unchecked": "theorem C14_semCheck_iff"}, found_input=False)
             if mcat != "ok":
                 stats["ill_formed"] += 1
                 stats["semantic"] += 1
